@@ -230,6 +230,24 @@ def check_resets(chk: Check, repo: Repo) -> None:
     reg = cfg3.stmt_nodes(lambda a: any(method_name(c) == "register_callback" for c in calls(a)))
     ok3 = bool(rs) and bool(reg) and all(cfg3.dominates(rs[0].id, r.id) for r in reg)
     chk.ob("reset-before-register", dm.site(), ok3, "DeviceManagement.start resets the counter before registering the request callback", key="reset|DeviceManagement.start")
+    # ... and only then: a redundant start() on a running instance must not reset the counter mid-connection
+    mf3 = cfg3.must_facts()
+    from ..astx import is_none_test
+    ok3b = bool(rs)
+    for r_ in rs:
+        held = False
+        for text, val in mf3[r_.id]:
+            t = is_none_test(ast.parse(text, mode="eval").body, val, lambda x: x == "self._callback")
+            if t is True:
+                held = True
+        ok3b = ok3b and held
+    chk.ob("reset-only-when-not-started", dm.site(), ok3b, "the counter reset in DeviceManagement.start is control-dependent on `self._callback is None` (not already started)", key="reset-only|DeviceManagement.start")
+    # every reset() call site in the package is one of the (re)connection paths above
+    for f_, c_ in [(f, c) for f in repo.all_functions() for c in calls(f.node) if method_name(c) == "reset" and "_sequence" in call_name(c)]:
+        chk.ob("reset-call-sites", f_.site(c_), f_.qualname in ("UDPTunnel.setup_tunnel", "DeviceManagement.start"), f"`{call_name(c_)}()` in {f_.qualname} (allowed: UDPTunnel.setup_tunnel, DeviceManagement.start)", key=f"reset-site|{f_.qualname}")
+    # setup_tunnel is invoked only by connect()
+    for f_, c_ in [(f, c) for f in repo.all_functions() for c in calls(f.node) if method_name(c) == "setup_tunnel"]:
+        chk.ob("reset-call-sites", f_.site(c_), f_.qualname == "_Tunnel.connect", f"setup_tunnel() called from {f_.qualname} (allowed: _Tunnel.connect)", key=f"setup-site|{f_.qualname}")
     # the class' `_sequence` attribute is an IncomingSequenceCounter created once in __init__
     for modname, qual in (("xknx.io.tunnel", "UDPTunnel.__init__"), ("xknx.io.device_management", "DeviceManagement.__init__")):
         f = repo.func(modname, qual)
